@@ -24,6 +24,43 @@ def _pos_loads(env, t):
     return out
 
 
+def exit_body(env, eb, adt, depth=0):
+    """the body that does the work of early_exit: early_exit itself, or — when early_exit only delegates to one private
+    method of the same type on `self` (`fn early_exit(&self) { self.terminate() }`) — that method"""
+    F, ev = env.F, env.ev
+    calls = [(bi, t, c) for bi, t, c in eb.calls() if not eb.blocks[bi]["cleanup"]]
+    if len(calls) != 1 or depth > 1:
+        return eb
+    bi, t, c = calls[0]
+    if c.indirect or not c.local or c.trait:
+        return eb
+    d = F.resolve_callee(c, adt, None)
+    hb = F.bodies.get(d) if d else None
+    if hb is None or hb.is_closure or F.impl_self_adt(hb) != adt or (hb.info or {}).get("exported"):
+        return eb
+    ctx = env.ctx(eb, adt, None)
+    if not t["args"] or unref(ev.operand(ctx, t["args"][0])) not in (("param", 1), ("deref", ("param", 1))):
+        return eb
+    # nothing but the call (no other statements with effects: only the call and the return)
+    if any(st["k"] == "assign" and st["place"]["p"] for blk in eb.blocks if not blk["cleanup"] for st in blk["stmts"]):
+        return eb
+    return exit_body(env, hb, adt, depth + 1)
+
+
+def is_exit_fn(env, b):
+    """b is an early_exit implementation, or the private method one of them delegates all its work to"""
+    F, R = env.F, env.R
+    info = b.info or {}
+    from r_m1 import norm_path
+    if info.get("name") == "early_exit" and norm_path(info.get("trait")) == R.T_ATOMIC:
+        return True
+    adt = F.impl_self_adt(b)
+    if adt is None or b.is_closure:
+        return False
+    eb = R.method_body(R.T_ATOMIC, "early_exit", adt)
+    return eb is not None and exit_body(env, eb, adt).def_ == b.def_ and eb.def_ != b.def_
+
+
 def rule_skip(env, shared):
     """SKIP: early_exit ends the iteration for every later pull.
     counter form: stores v >= LEN into the position counter; reservation form: reserves >= LEN positions;
@@ -37,6 +74,7 @@ def rule_skip(env, shared):
         if b is None:
             out.append(Ob("SKIP", key, "viol", "-", "early_exit of %s not found" % r["name"]))
             continue
+        b = exit_body(env, b, adt)
         w = env.world_of(adt)
         evs = env.flat_events(b, adt, w)
         L = r.get("len_term")
@@ -168,8 +206,16 @@ def rule_skip(env, shared):
             continue
         ctx = env.ctx(b, adt, None)
         okk = False
+        eb0 = R.method_body(R.T_ATOMIC, "early_exit", adt)
+        eh = exit_body(env, eb0, adt) if eb0 is not None else None
         for bi, t, c in b.calls():
             if c.trait == R.T_ATOMIC and c.name == "early_exit":
+                a0 = unref(ev.operand(ctx, t["args"][0]))
+                if a0 in (("param", 1), ("deref", ("param", 1))):
+                    okk = True
+            elif eh is not None and eb0 is not None and eh.def_ != eb0.def_ and not c.indirect \
+                    and F.resolve_callee(c, adt, None) == eh.def_ and t["args"]:
+                # .. or the private function early_exit itself consists of (`fn terminate(&self)` shared by the two)
                 a0 = unref(ev.operand(ctx, t["args"][0]))
                 if a0 in (("param", 1), ("deref", ("param", 1))):
                     okk = True
@@ -797,7 +843,8 @@ def rule_done(env, shared):
             # judged at its call sites instead
             sb = e.body
             trivial = (not sb.is_closure and len(sb.blocks) <= 3 and len(list(sb.calls())) == 1
-                       and receiver_kind(sb, F) == "ref" and (sb.info or {}).get("name") != "early_exit")
+                       and receiver_kind(sb, F) == "ref" and (sb.info or {}).get("name") != "early_exit"
+                       and not is_exit_fn(env, sb))
             if trivial:
                 if not e.info["chain"]:
                     continue
@@ -814,7 +861,7 @@ def rule_done(env, shared):
             txt = [(f[0], fmt(f[1]) if len(f) > 1 and isinstance(f[1], tuple) else None, f[2] if len(f) > 2 else None)
                    for f in fs]
             why = None
-            if info.get("name") == "early_exit":
+            if info.get("name") == "early_exit" or is_exit_fn(env, F.bodies.get(b.root, b) if b.is_closure else b):
                 why = "early_exit"
             elif info.get("name") == "drop" and any(f[0] == "bool" and f[2] is True and "panicking" in fmt(f[1]) for f in fs):
                 why = "guard dropped while panicking"
